@@ -12,7 +12,10 @@ LEVEL_TEXT = ("PARTIAL. Proved in Coq: the interpolation-relevant structure of a
               "master only: known finding F7). check_for_nonmatching_components is transcribed (Interp/Nonmatching.v) and proved: a "
               "composite it keeps never makes the TrueType pen decompose it in one master on its own, and with equal component "
               "counts has the same 2x2 parts in every master (pre-repair code F19/F21 refuted); compared exactly with the real "
-              "method on random families around the F2Dot14 bounds. The other joint decisions of the interpolatable pre-processors (which glyphs to "
+              "method on random families around the F2Dot14 bounds. makeMissingRequiredGlyphs' placeholders for the component bases a "
+              "non-default master lacks are transcribed (Interp/Placeholders.v): with them the TrueType pen, which drops "
+              "components of unknown bases, keeps every composite's component list (compared exactly with OutlineTTFCompiler on "
+              "random glyph sets, as default and as non-default source). The other joint decisions of the interpolatable pre-processors (which glyphs to "
               "decompose / flatten / convert) and the sparse-master rules are checked on the implementation: every master "
               "returned by compileInterpolatableTTFs / ...TTFsFromDS / ...OTFsFromDS must have, per glyph, the same contour count, "
               "point count, on/off sequence and component list (cu2qu's joint search is environment).")
@@ -246,7 +249,71 @@ def nonmatching_section(ctx):
             ctx.corr_mismatch(case, "Gallina needs_decomposition (Interp/Nonmatching.v) differs from check_for_nonmatching_components")
 
 
+def placeholders_section(ctx):
+    """OutlineTTFCompiler.makeMissingRequiredGlyphs + the TrueType pen against Interp/Placeholders.v: random glyph sets whose
+    composites reference glyphs the (sparse) master lacks; as the default source and as a non-default one"""
+    from ufo2ft.outlineCompiler import OutlineTTFCompiler
+    import ufoLib2
+    rng = ctx.subrng("placeholders")
+    cases, meta = [], []
+    POOL = ["a", "b", "c", "d", "e", "f", "g"]
+    for i in range(ctx.budget(60, 400)):
+        present = rng.sample(POOL, rng.randint(1, 5))
+        f = ufoLib2.Font()
+        f.info.unitsPerEm = 1000; f.info.ascender = 800; f.info.descender = -200
+        nd = f.newGlyph(".notdef"); nd.width = 500
+        gs_model = [(".notdef", [])]
+        for nm in present:
+            g = f.newGlyph(nm); g.width = 500
+            comps = []
+            lower = [x for x in POOL if x < nm]            # references go to alphabetically smaller names only: no cycles
+            if lower and rng.random() < 0.7:
+                comps = [rng.choice(lower) for _ in range(rng.randint(1, 3))]
+                pen = g.getPointPen()
+                for b in comps:
+                    pen.addComponent(b, (1, 0, 0, 1, rng.randint(0, 50), 0))
+            else:
+                pen = g.getPen(); pen.moveTo((0, 0)); pen.lineTo((100, 0)); pen.lineTo((50, 100)); pen.closePath()
+            gs_model.append((nm, comps))
+        # (a composite whose bases are composites themselves is fine for the pen; nesting is not what is modelled here)
+        sparse = i % 3 != 0
+        glyphSet = {g.name: g for g in f}
+        f.glyphOrder = [".notdef"] + present
+        try:
+            comp = OutlineTTFCompiler(f, glyphSet=glyphSet, compilingVFDefaultSource=not sparse)
+            all_names = list(comp.allGlyphs.keys())
+            tt = comp.compile()
+            obs = []
+            for nm, comps in gs_model:
+                g = tt["glyf"][nm]
+                obs.append((nm, [c.glyphName for c in g.components] if g.isComposite() else []))
+        except Exception as e:
+            ctx.spec_failure({"glyphs": gs_model, "sparse": sparse}, "OutlineTTFCompiler raised %s: %s\n%s" % (type(e).__name__, e, traceback.format_exc()[-800:]))
+            continue
+        ctx.count(); ctx.klass("placeholders: %s master" % ("non-default" if sparse else "default"))
+        if sparse and any(b not in present for _, cs in gs_model for b in cs):
+            ctx.nontriv(("ph", i, ctx.scale))
+        gg = lambda l: G.lst([G.tup(G.s(n), G.lst([G.s(b) for b in cs], "str")) for n, cs in l], "cglyph")
+        cases.append(G.tup(G.b(sparse), gg(gs_model), G.lst([G.s(n) for n in all_names], "str"), gg(obs)))
+        meta.append({"glyphs": gs_model, "non_default_master": sparse, "glyph_set_after": all_names, "compiled_component_lists": obs})
+    vals = ctx.coq_eval("From U2F Require Import Base.Prelude Interp.Placeholders.",
+                        "fun c : (bool * list cglyph * list str * list cglyph) => let '(sp, gs, allnames, obs) := c in "
+                        "let gs' := add_placeholders sp gs in "
+                        "(if list_eqb str_eqb (names gs') allnames && "
+                        "list_eqb (fun x y => str_eqb (fst x) (fst y) && list_eqb str_eqb (snd x) (snd y)) (map (fun g => (fst g, pen_components gs' (snd g))) gs) obs then 1 else 0) + "
+                        "(if negb sp || list_eqb (fun x y => str_eqb (fst x) (fst y) && list_eqb str_eqb (snd x) (snd y)) gs obs then 2 else 0)",
+                        cases, chunk=100, tag="Placeholders")
+    for v, case in zip(vals, meta):
+        if v is None:
+            continue
+        if not v & 2:
+            ctx.spec_failure(case, "a composite of a non-default master lost a component although placeholders should stand in for the missing bases")
+        elif not v & 1:
+            ctx.corr_mismatch(case, "Gallina add_placeholders / pen_components (Interp/Placeholders.v) differ from OutlineTTFCompiler")
+
+
 def explore(ctx):
+    placeholders_section(ctx)
     nonmatching_section(ctx)
     import ufo2ft
     from ufo2ft.errors import InvalidFontData
